@@ -120,8 +120,12 @@ Fixpoint agree_rounds (c : hist_case) (cards : list (card nat)) (st : rstate) (p
   end.
 Definition hist_init (c : hist_case) : rstate :=
   mkrs (mkcontests (hc_ids c) (map (fun _ => 0%nat) (hc_ids c)) (hc_thr0 c)) (map (fun _ => false) (hc_cards c)) [].
+(* the round-by-round comparison, and the model's own loop over rounds (run_rounds, the function the C10 theorems are about) *)
 Definition agree_hist (c : hist_case) : bool :=
-  agree_rounds c (mkcards (hc_cards c)) (hist_init c) (hc_proved0 c) (hc_rounds c).
+  agree_rounds c (mkcards (hc_cards c)) (hist_init c) (hc_proved0 c) (hc_rounds c)
+  && list_eqb (res_eqb nats_eqb)
+       (map fst (run_rounds (mkcards (hc_cards c)) (hist_init c) (map (fun h => mkop (h_sizes h) (h_cont h)) (hc_rounds c))))
+       (map h_sel (hc_rounds c)).
 (* what the model computes for the successive rounds (selection, thresholds) *)
 Definition show_hist (c : hist_case) :=
   map (fun x => (fst x, map k_thr (r_contests (snd x))))
